@@ -70,7 +70,7 @@ def parseHashes (x : Bytes) : List Bytes := splitOn (44 : UInt8) x
 
 def model (op : String) (args : List Bytes) : Option String := do
   match op with
-  | "distinfo.line" => let x ← args[0]?; pure (showLine (lineFromBytes x))
+  | "distinfo.line" => let x ← args[0]?; pure (showLine (lineFromBytesNl x))
   | "distinfo.parse" => let x ← args[0]?; pure (dump (distinfoFromBytes x))
   | "distinfo.roundtrip" => let x ← args[0]?; pure (hexEncode (distinfoFromBytes x).asBytes)
   | "distinfo.build" =>
@@ -112,6 +112,22 @@ def model (op : String) (args : List Bytes) : Option String := do
     let calcs := Digest.all.map fun dg => match hashOf dg pm with | some h => bstr h | none => "err"
     let csize := match flen with | some n => toString n | none => "err"
     pure s!"size={size}|sums={",".intercalate sums}|all={",".intercalate all}|calc={",".intercalate calcs}|csize={csize}"
+  | "entry.verify" =>
+    let x ← args[0]?; let en ← args[1]?; let _fn ← args[2]?; let content ← args[3]?
+    let plain ← args[4]?; let patch ← args[5]?
+    let d := distinfoFromBytes x
+    let hp := parseHashes plain
+    let hq := parseHashes patch
+    let hashOf (dg : Digest) (pm : Bool) : Option Bytes := (if pm then hq else hp)[Digest.all.idxOf dg]?
+    match (d.distfiles.get en).orElse (fun _ => d.patchfiles.get en) with
+    | none => pure "noentry"
+    | some e =>
+      let size := match e.verifySize (some content.length) with | .ok n => s!"ok:{n}" | .error er => showVErr er
+      let sums := Digest.all.map fun dg =>
+        match e.verifyChecksum hashOf dg with | .ok _ => "ok" | .error er => showVErr er
+      let all := e.checksums.map fun c => match e.verifyChecksum hashOf c.1 with
+        | .ok dg => "ok:" ++ dg.name | .error er => showVErr er
+      pure s!"size={size}|sums={",".intercalate sums}|all={",".intercalate all}"
   | _ => none
 
 /-! ### oracles -/
@@ -251,6 +267,34 @@ def oracleC12 (op : String) (args : List Bytes) (impl : String) : String × Stri
       else if get "calc" != ",".intercalate expCalc then ("fail:calculate_checksum-mode", nt)
       else if get "csize" != toString content.length then ("fail:calculate_size", nt)
       else ("ok", nt)
+    | _ => ("na", "")
+  | "entry.verify" =>
+    -- Entry-level API: the file on disk may be named differently from the entry; what is
+    -- hashed is decided by the ENTRY's kind, never by the name of the file that is checked
+    match args with
+    | [f, en, fname, content, plain, patch] =>
+      let groups := (S.distinfoDocument f).2
+      let hp := parseHashes plain
+      let hq := parseHashes patch
+      let digestOf (dg : Digest) (pm : Bool) : Bytes := ((if pm then hq else hp)[Digest.all.idxOf dg]?).getD []
+      match groups.find? (fun g => g.name == en) with
+      | none => if impl == "noentry" then ("ok", "") else ("na", "entry-spelled-differently")
+      | some g =>
+        let expSize := match g.size with
+          | none => "err:missingsize"
+          | some n => if n == content.length then s!"ok:{n}" else s!"err:size:{n}:{content.length}"
+        let expSums := Digest.all.map fun dg => match g.sums.find? (fun c => c.1 == dg) with
+          | none => "err:missing"
+          | some c =>
+            let act := digestOf dg (g.kind == .patchfile)
+            if c.2 == act then "ok" else s!"err:checksum:{hexEncode c.2}:{hexEncode act}"
+        let parts := impl.splitOn "|"
+        let get (k : String) : String := ((parts.find? (·.startsWith (k ++ "="))).map (·.drop (k.length + 1)) |>.map toString).getD "?"
+        let renamed := (S.entryType fname == .patchfile) != (g.kind == .patchfile) && !g.sums.isEmpty
+        let nt := if renamed then "nt" else ""
+        if get "size" != expSize then (s!"fail:entry-size-verification={expSize}", nt)
+        else if get "sums" != ",".intercalate expSums then (s!"fail:entry-checksum-verification={",".intercalate expSums}", nt)
+        else ("ok", nt)
     | _ => ("na", "")
   | _ => ("na", "")
 
